@@ -459,11 +459,18 @@ def explore(S, props, K, walkK, levels=(False, False)):
                 tasks.append((name, 'main() format-all over directory tree with parent vector %r (%s): all flags, every entry file/dir/other, '
                               'any name (hidden or not), extension, readability, syntax errors, write failures' % (parents, 'directory given' if dir_given else 'current directory'),
                               body_walk, dict(mode='format-all', entries=len(parents), parents=list(parents))))
-    # the largest trees first, so that the workers finish together
-    tasks.sort(key=lambda t: -t[3]['entries'])
-    for ob, viol in S.explore_batch(tasks):
+    # small trees: one worker each; large trees (thousands of paths each): one after the other, each split over all workers at path level
+    small = [t for t in tasks if t[3]['entries'] < 4]
+    large = [t for t in tasks if t[3]['entries'] >= 4]
+    for ob, viol in S.explore_batch(small):
         for lab, mdl, info in viol:
             found.append((lab.split(':')[0], lab.split(':', 1)[1], info))
+    for name, desc, body, bounds in large:
+        ob, ex = S.explore(name, desc, body, bounds=bounds, parallel=True)
+        for lab, mdl, info in ex.violations:
+            found.append((lab.split(':')[0], lab.split(':', 1)[1], info))
+        if ob.status.startswith('inconclusive'):
+            break
     return found
 
 
